@@ -2,6 +2,8 @@
 operand order / operator choice decides a property and which provenance-level rules cannot see.  A kernel passes when the
 canonical tree of its return value is one of the accepted forms; trees are insensitive to temporaries, naming, statement
 order, `?`/into()/casts, commutative operand order and associative nesting."""
+import json
+import os
 from .common import *
 
 ONE = str(1 << 48)
@@ -53,6 +55,44 @@ KERNELS = {
 }
 
 
+DEEP_FILE = os.path.join(os.path.dirname(os.path.abspath(__file__)), "deep_snapshot.json")
+_DEEP = None
+
+
+def deep_sig(prog, f):
+    """path table of the *deep form* of f (bodies of its same-crate callees spliced in, engine/inline.py deep_fn): the same for two
+    versions of f that differ only in where helper boundaries are.  None when it is too large to be useful."""
+    from engine import inline
+    try:
+        g = inline.deep_fn(prog, f)
+        sig = leaf_sig(prog, g)
+    except Exception:
+        return None
+    if not sig or len(sig) > 48 or sum(len(x) for x in sig) > 24000:
+        return None
+    return sig
+
+
+def deep_reviewed(key):
+    global _DEEP
+    if _DEEP is None:
+        try:
+            _DEEP = json.load(open(DEEP_FILE))
+        except Exception:
+            _DEEP = {}
+    return _DEEP.get(key)
+
+
+def same_modulo_helper_boundaries(prog, f, key):
+    """fallback of every content pin: the function's deep form equals the reviewed deep form (a helper was extracted from it, inlined
+    into it, merged or split - its behaviour as a whole is unchanged)"""
+    want = deep_reviewed(key)
+    if not want:
+        return False
+    got = deep_sig(prog, f)
+    return got is not None and got == want
+
+
 def check_kernels(ctx, rule, names):
     prog = ctx.prog
     for nm in names:
@@ -63,7 +103,11 @@ def check_kernels(ctx, rule, names):
             continue
         f = fs[0]
         got = ret_tree(prog, f)
-        ctx.inst(rule, "kernel/" + nm, got in accepted, "%s: %s" % (f.name, meaning), got if got not in accepted else "ok", f.loc(f.raw["span"]))
+        ok = got in accepted
+        note = "ok"
+        if not ok and same_modulo_helper_boundaries(prog, f, "K|" + nm):
+            ok, note = True, "ok (equal to the reviewed function modulo helper boundaries)"
+        ctx.inst(rule, "kernel/" + nm, ok, "%s: %s" % (f.name, meaning), got if not ok else note, f.loc(f.raw["span"]))
 
 
 # ------------------------------------------------------------------------------------------------------------------
@@ -75,6 +119,8 @@ def leaf_sig(prog, f):
     for cs, r, st in effect_paths(prog, f, inline=1):
         if r and r.startswith("from_residual("):
             continue
+        if (r and "undef" in r) or any("undef" in c for c in cs):
+            continue          # error path of a spliced callee's own `?` (its result is never produced)
         cs = [c for c in cs if not c.startswith("discr(checked_")]
         sig.append("%s => %s | %s" % (" & ".join(cs) or "always", r, ", ".join("%s := %s" % kv for kv in sorted(st.items())) or "-"))
     return sorted(set(sig))
@@ -129,4 +175,8 @@ def check_leaves(ctx, rule, names):
             continue
         f = fs[0]
         got = leaf_sig(prog, f)
-        ctx.inst(rule, "leaf/" + nm, got in [sorted(a) for a in accepted], "%s: %s" % (f.name, meaning), got if got not in [sorted(a) for a in accepted] else "ok", f.loc(f.raw["span"]))
+        ok = got in [sorted(a) for a in accepted]
+        note = "ok"
+        if not ok and same_modulo_helper_boundaries(prog, f, "L|" + nm):
+            ok, note = True, "ok (equal to the reviewed function modulo helper boundaries)"
+        ctx.inst(rule, "leaf/" + nm, ok, "%s: %s" % (f.name, meaning), got if not ok else note, f.loc(f.raw["span"]))
